@@ -2,7 +2,7 @@
    Statements only; proofs in Proofs/ParserSmall.v, ParserLemmas.v, ParserProofs.v. *)
 From Coq Require Import List String ZArith Bool Arith.
 From GinV Require Import Lib.Out Lib.PyStr Model.Parser Model.ParserSpec
-                         Proofs.ParserSmall Proofs.ParserLemmas Proofs.ParserProofs.
+                         Proofs.ParserSmall Proofs.ParserLemmas Proofs.ParserProofs Proofs.ParserSound.
 Import ListNotations.
 Open Scope string_scope.
 Open Scope list_scope.
@@ -34,7 +34,41 @@ Theorem C02_one_tuple : forall o x trailing,
   py_eval o (LTuple [x] trailing) = match py_eval o x with Some v => Some (OT "T" [v]) | None => None end.
 Proof. exact one_tuple_rule_comma. Qed.
 
+(* Soundness — "text that is not such a literal never yields some other value": whenever the parser succeeds on
+   tokens none of which is the reference / macro sigil, the value it returns IS Python's value of a well-formed
+   tree of the literal grammar, and the tokens it consumed are a rendering of that tree (punctuation compared by
+   text, skipped tokens being exactly those the parser's whitespace mode skips).  No hypothesis on fuel: an
+   out-of-fuel run is an error, never a value. *)
+Theorem C02_sound : forall fuel o wb ts v rest n,
+  parse_value fuel o wb ts = POk (v, rest) -> Forall (lit_tok o) ts ->
+  exists l lay n' toks used,
+    lit_wf o l /\ py_eval o l = Some v /\ ts = used ++ rest /\
+    render l lay n true = (toks, n') /\ Forall2 tok_sim toks used /\
+    (forall k, Forall (skippable wb) (lay k)).
+Proof. exact C02_sound_gen. Qed.
+
+(* exact form: for streams as the real tokenizer produces them (no ERRORTOKEN, canonical punctuation) the
+   consumed tokens ARE literally a rendering in a layout of trivia *)
+Theorem C02_sound_exact : forall fuel o wb ts v rest n,
+  parse_value fuel o wb ts = POk (v, rest) ->
+  Forall (lit_tok o) ts -> Forall (plain_tok wb) ts -> Forall canon_punct ts ->
+  exists l lay toks n', lay_ok lay /\ lit_wf o l /\ py_eval o l = Some v /\
+    render l lay n true = (toks, n') /\ ts = toks ++ rest.
+Proof. exact C02_sound_strong. Qed.
+
+(* never some other value: on a rendered tree the parser's answer, with ANY fuel, is Python's value *)
+Theorem C02_never_another_value : forall o l wb lay n inside v' toks n' tr rest fuel v rest2,
+  lay_ok lay -> lit_wf o l -> py_eval o l = Some v' -> render l lay n inside = (toks, n') ->
+  Forall tok_ok toks -> Forall trivia_tok tr ->
+  rest <> [] -> (forall t r', rest = t :: r' -> follow_ok t) ->
+  parse_value fuel o wb (toks ++ tr ++ rest) = POk (v, rest2) ->
+  v = v' /\ rest2 = rest.
+Proof. exact C02_agree. Qed.
+
 Print Assumptions C02_complete.
 Print Assumptions C02_complete_value_fuel.
 Print Assumptions C02_paren_is_value.
 Print Assumptions C02_one_tuple.
+Print Assumptions C02_sound.
+Print Assumptions C02_sound_exact.
+Print Assumptions C02_never_another_value.
